@@ -330,8 +330,47 @@ class Builtins:
         s = it.iter_to_seq(v, fr)
         return VGen("seqiter", seq=s, pos=z3.IntVal(0))
 
+    def next_filtered(self, it, g, args, fr):
+        """next(e(x) for x in src if P(x)) : e at the first position satisfying P, StopIteration if none."""
+        node, gfr = g.node, g.frame
+        gen = node.generators[0]
+        srcv = it.force(it.eval(gen.iter, gfr), gfr)
+        if isinstance(srcv, VGen) and srcv.kind == "enumerate":
+            base = it.iter_to_seq(srcv.src, gfr)
+            n = z3.Length(base.term)
+
+            def elem_at(i):
+                return PyTuple([SV(TInt, i), it.assume_wf(SV(base.ty.elem, base.term[i]))])
+        else:
+            base = it.iter_to_seq(srcv, gfr)
+            n = z3.Length(base.term)
+
+            def elem_at(i):
+                return it.assume_wf(SV(base.ty.elem, base.term[i]))
+
+        def pred_and_elt(i):
+            nfr = self._child_frame(gfr, pure=True)
+            it.assign(gen.target, elem_at(i), nfr)
+            c = z3.And([it.truthy(it.eval(cnd, nfr), nfr) for cnd in gen.ifs])
+            return c, nfr
+        j = it.bound("nfj", z3.IntSort())
+        cj, _ = pred_and_elt(j)
+        some = z3.Exists([j], z3.And(j >= 0, j < n, cj))
+        if not it.branch(some):
+            if len(args) > 1:
+                return args[1]
+            it.raise_exc("StopIteration")
+        k = it.fresh("first", z3.IntSort())
+        ck, nfrk = pred_and_elt(k)
+        it.assume(z3.And(k >= 0, k < n, ck))
+        it.assume(z3.ForAll([j], z3.Implies(z3.And(j >= 0, j < k), z3.Not(cj))))
+        return it.eval(node.elt, nfrk)
+
     def b_next(self, it, args, kwargs, fr):
         g = args[0]
+        if isinstance(g, VGen) and g.kind == "genexp" and len(g.node.generators) == 1 and g.node.generators[0].ifs and not g.consumed:
+            g.consumed = True
+            return self.next_filtered(it, g, args, fr)
         if isinstance(g, VGen) and g.kind == "seqiter":
             ln = z3.Length(g.seq.term)
             if not it.branch(g.pos < ln):
@@ -488,7 +527,7 @@ class Builtins:
         t = s.ty
         if name == "append":
             e = it.coerce(args[0], t.elem).term
-            self.writeback(it, node, SV(t, seq_concat(s.term, z3.Unit(e))), fr)
+            self.writeback(it, node, it.seq_append(s, e), fr)
             return NONE
         if name == "extend":
             o = it.coerce(it.iter_to_seq(args[0], fr), t)
@@ -818,7 +857,43 @@ class Builtins:
         return SV(TSeq(ev.ty), res)
 
     def filter_comp(self, it, node, gen, fr, n, elem_at):
-        raise Unsupported("filtered comprehension")
+        """[e(x) for x in src if P(x)]: exact order-preserving filter, encoded with a ghost position
+        function pos: result index -> source index (strictly increasing, onto the positions satisfying P)."""
+        def pred_elt(i):
+            nfr = self._child_frame(fr, pure=True)
+            nfr.pure_code = True
+            it.assign(gen.target, elem_at(i), nfr)
+            c = z3.And([it.truthy(it.eval(cnd, nfr), nfr) for cnd in gen.ifs])
+            self_narrow = getattr(it, "narrow", None)
+            for cnd in gen.ifs:
+                it.narrow(cnd, nfr)
+            ev = it.eval(node.elt, nfr)
+            if isinstance(ev, (PyTuple, PyList)):
+                ev = it.coerce(ev, it.val_ty(ev))
+            return c, ev
+        i = it.bound("fi", z3.IntSort())
+        k = it.bound("fk", z3.IntSort())
+        k2 = it.bound("fk2", z3.IntSort())
+        it.binder_stack.append([])
+        it.pure_ctx.append(([i], z3.And(i >= 0, i < n)))
+        try:
+            ci, evi = pred_elt(i)
+        finally:
+            it.pure_ctx.pop()
+            facts = it.binder_stack.pop()
+        if facts:
+            it.assume(z3.ForAll([i], z3.Implies(z3.And(i >= 0, i < n, ci), z3.And(facts))))
+        res = it.fresh("filt", z3.SeqSort(evi.ty.sort()))
+        pos = z3.Function(f"pos!{next(it.counter)}", z3.IntSort(), z3.IntSort())
+        ln = z3.Length(res)
+        ck = z3.substitute(ci, (i, pos(k)))
+        ek = z3.substitute(evi.term, (i, pos(k)))
+        it.assume(z3.ForAll([k], z3.Implies(z3.And(k >= 0, k < ln), z3.And(pos(k) >= 0, pos(k) < n, ck, res[k] == ek))))
+        it.assume(z3.ForAll([k, k2], z3.Implies(z3.And(k >= 0, k < k2, k2 < ln), pos(k) < pos(k2))))
+        it.assume(z3.ForAll([i], z3.Implies(z3.And(i >= 0, i < n, ci), z3.Exists([k], z3.And(k >= 0, k < ln, pos(k) == i)))))
+        it.assume(ln <= n)
+        it.notes.add("filtered comprehensions: exact order-preserving filter via a ghost position function")
+        return SV(TSeq(evi.ty), res)
 
     def _child_frame(self, fr, pure=None):
         nfr = Frame(fr.module, fr.cls, fr.fi, pure=fr.pure if pure is None else pure)
